@@ -10,6 +10,8 @@ R12f every prefix:name constant resolves in ODF_NAMESPACES
 R12g constructor stores land on a real property or on read Python state
 R12h no cross-wired store (parameter p stored into another property while p's is left unset)
 R12i explicit getter/setter pairs name the same attribute
+R12j constructor does not wipe what it stored; R12k self-description read from the element
+R12l generic attribute accessors carry the value verbatim
 """
 
 from __future__ import annotations
@@ -784,6 +786,97 @@ def r12k(ctx, reg):
         raise AnalysisError("R12k: no constant XPath query on self found in element classes")
 
 
+def _accessor_bodies(repo: Repo):
+    """(FuncInfo, function node, role) of the generic attribute accessors of Element: the closures of the PropDef getter/setter factories and
+    the get_attribute* / set_attribute family every explicit property goes through."""
+    el = repo.cls("Element")
+    out = []
+    for name, role in (("_generic_attrib_getter", "get"), ("_generic_attrib_setter", "set")):
+        f = el.lookup(name)
+        if f is None:
+            raise AnalysisError(f"Element.{name} not found")
+        inner = [n for n in ast.walk(f.node) if isinstance(n, ast.FunctionDef) and n is not f.node]
+        if len(inner) != 1:
+            raise AnalysisError(f"Element.{name}: expected one closure")
+        out.append((f, inner[0], role))
+    for name, role in (("get_attribute", "get"), ("get_attribute_string", "get"), ("set_attribute", "set"), ("set_style_attribute", "fwd")):
+        f = el.lookup(name)
+        if f is None:
+            raise AnalysisError(f"Element.{name} not found")
+        out.append((f, f.node, role))
+    return out
+
+
+def r12l(ctx, reg):
+    """The generic attribute accessors carry the value verbatim.
+
+    Every PropDef property and every explicit property of the ~90 classes reads and writes its attribute through six small functions of
+    Element.  "An instance built with any valid constructor arguments exposes those arguments through its properties" then needs them to be
+    the identity on strings: what the setter hands to lxml is str(value) (or the boolean/colour encoding of it), what the getter returns is
+    str() of what lxml gave (or its boolean decoding).  A strip(), case change, normalisation, slice or default substituted on that path makes
+    `Section(name=" a ").name != " a "` for every class at once.
+    """
+    from .c14 import _lossy_call
+    repo = ctx.repo
+    ctx.rule("R12l", "the generic attribute accessors (PropDef getter/setter closures, get_attribute*, set_attribute) carry the value verbatim", floor=6)
+    for f, node, role in _accessor_bodies(repo):
+        params = [a.arg for a in node.args.args if a.arg not in ("self", "cls")]
+        vparam = params[-1] if role in ("set", "fwd") and params else None
+        bad: list[tuple[ast.AST, str]] = []
+        for c in walk_no_nested(node):
+            if isinstance(c, ast.Call) and _lossy_call(c):
+                bad.append((c, f"`{norm(c, 50)}` rewrites the value"))
+            if isinstance(c, ast.Subscript) and isinstance(c.slice, ast.Slice) and isinstance(c.value, ast.Name):
+                bad.append((c, f"`{norm(c, 50)}` keeps part of the value"))
+        if role == "set":
+            sinks = [c for c in walk_no_nested(node) if isinstance(c, ast.Call) and isinstance(c.func, ast.Attribute) and c.func.attr == "set" and len(c.args) == 2]
+            if not sinks:
+                raise AnalysisError(f"{f.ident}: no lxml .set(name, value) call found")
+            def unalias(e):
+                for _ in range(3):
+                    if isinstance(e, ast.Call) and call_name(e) == "str" and len(e.args) == 1:
+                        e = e.args[0]
+                    elif isinstance(e, ast.Name) and e.id != vparam:
+                        ds = [a.value for a in walk_no_nested(node) if isinstance(a, ast.Assign) and any(isinstance(t, ast.Name) and t.id == e.id for t in a.targets)]
+                        if len(ds) != 1:
+                            break
+                        e = ds[0]
+                    else:
+                        break
+                return e
+
+            for c in sinks:
+                core = unalias(c.args[1])
+                if not (isinstance(core, ast.Name) and core.id == vparam):
+                    bad.append((c, f"`{norm(c, 60)}` stores something else than str({vparam})"))
+        elif role == "fwd":
+            calls = [c for c in walk_no_nested(node) if isinstance(c, ast.Call) and call_name(c) == "set_attribute"]
+            for c in calls:
+                if not (len(c.args) == 2 and isinstance(c.args[1], ast.Name) and c.args[1].id == vparam):
+                    bad.append((c, f"`{norm(c, 60)}` forwards something else than {vparam}"))
+        else:
+            gets = [st for st in walk_no_nested(node) if isinstance(st, ast.Assign) and isinstance(st.value, ast.Call) and isinstance(st.value.func, ast.Attribute)
+                    and st.value.func.attr == "get" and isinstance(st.targets[0], ast.Name)]
+            if len(gets) != 1:
+                raise AnalysisError(f"{f.ident}: expected one lxml .get(name) read")
+            got = gets[0].targets[0].id
+            for r in walk_no_nested(node):
+                if isinstance(r, ast.Return) and r.value is not None and not (isinstance(r.value, ast.Constant) and r.value.value is None):
+                    v = r.value
+                    if not (isinstance(v, ast.Call) and len(v.args) == 1 and isinstance(v.args[0], ast.Name) and v.args[0].id == got
+                            and (call_name(v) == "str" or call_name(v).endswith("decode")) or isinstance(v, ast.Name) and v.id == got):
+                        bad.append((r, f"`{norm(r, 60)}` returns something else than str({got}) or its boolean decoding"))
+            for st in walk_no_nested(node):
+                if isinstance(st, (ast.Assign, ast.AugAssign)) and st is not gets[0] and any(isinstance(t, ast.Name) and t.id == got for t in (st.targets if isinstance(st, ast.Assign) else [st.target])):
+                    bad.append((st, f"`{norm(st, 60)}` replaces the value read"))
+        label = f"{f.ident}{'.' + node.name if node is not f.node else ''}"
+        ctx.instance("R12l", f"{f.file}:{label}", f"{role}: value carried verbatim", ok=not bad, nontrivial=True, line=node.lineno)
+        for n_, why in bad[:2]:
+            ctx.report("R12l", f, n_, f"{label}: {why.split('`')[1] if '`' in why else why}",
+                       f"{label}: {why}; every PropDef and explicit attribute property of every element class goes through this accessor, so a constructor "
+                       f"argument that the rewrite changes (surrounding blanks, case, composed characters, length) is not what the property gives back")
+
+
 def run(ctx):
     reg = build_registry(ctx.repo)
     ctx.extra["registry"] = {"modules_in_import_order": len(reg.order), "registrations": len(reg.regs), "tags": len(reg.tag2cls),
@@ -798,6 +891,7 @@ def run(ctx):
     r12i(ctx, reg)
     r12j(ctx, reg)
     r12k(ctx, reg)
+    r12l(ctx, reg)
     # `clone` is one of the access paths of the property: a clone must be a detached copy of its own (rules shared with C10)
     from .c10 import r10c, r10g
     r10c(ctx)
@@ -824,6 +918,12 @@ SEEDS = [
     Seed("Annotation stores its name before the creator", "neutral", "src/odfdo/note.py",
          "            if creator:\n                self.creator = creator\n            if date is None:\n                date = datetime.now()\n            self.date = date\n            if not name:\n                name = get_unique_office_name(parent)\n            self.name = name\n",
          "            if not name:\n                name = get_unique_office_name(parent)\n            self.name = name\n            if creator:\n                self.creator = creator\n            if date is None:\n                date = datetime.now()\n            self.date = date\n"),
+    Seed("PropDef setter trims the value", "fault", "src/odfdo/element.py", "            self.__element.set(name, str(value))", "            self.__element.set(name, str(value).strip())", "R12l"),
+    Seed("PropDef setter trims through a local", "fault", "src/odfdo/element.py", "            self.__element.set(name, str(value))", "            text = str(value)\n            text = text.strip()\n            self.__element.set(name, text)", "R12l"),
+    Seed("get_attribute_string lower-cases", "fault", "src/odfdo/element.py", "        if value is None:\n            return None\n        return str(value)\n\n    def set_attribute(", "        if value is None:\n            return None\n        return str(value).lower()\n\n    def set_attribute(", "R12l"),
+    Seed("set_attribute truncates", "fault", "src/odfdo/element.py", "        element.set(lxml_tag, str(value))", "        element.set(lxml_tag, str(value)[:255])", "R12l"),
+    Seed("PropDef getter substitutes a default", "fault", "src/odfdo/element.py", "            elif value in (\"true\", \"false\"):\n                return Boolean.decode(value)\n            return str(value)\n\n        return getter", "            elif value in (\"true\", \"false\"):\n                return Boolean.decode(value)\n            return str(value) or None\n\n        return getter", "R12l"),
+    Seed("PropDef setter names its sink arguments", "neutral", "src/odfdo/element.py", "            self.__element.set(name, str(value))", "            elem = self.__element\n            text = str(value)\n            elem.set(name, text)"),
     Seed("unregister Section", "fault", "src/odfdo/section.py", "register_element_class(Section)\n", "", "R12a"),
     Seed("Span registered for text:a too (shadowing Link)", "fault", "src/odfdo/paragraph.py",
          "register_element_class(Span)", 'register_element_class_list(Span, ("text:span", "text:a"))', "R12a"),
